@@ -165,8 +165,10 @@ NP_MAKERS = {
     "int64": lambda v: np.int64(v),
     "int32": lambda v: np.int32(v),
     "bool_": lambda v: np.bool_(v),
+    "str_": lambda v: np.str_(v),
 }
-NP_FOR = {"float": ["float64", "float64", "float32", "arr0"], "int": ["int64", "int64", "int32", "arr0"], "bool": ["bool_"]}
+NP_FOR = {"float": ["float64", "float64", "float32", "arr0"], "int": ["int64", "int64", "int32", "arr0"], "bool": ["bool_"],
+          "str": ["str_"]}
 
 
 def leaf_paths(raw, prefix=()):
